@@ -1,5 +1,14 @@
 package rules
 
+import (
+	"go/types"
+	"strings"
+
+	"f2gcheck/internal/ir"
+
+	"golang.org/x/tools/go/ssa"
+)
+
 func init() {
 	Registry["C01"] = c01
 	Registry["C02"] = c02
@@ -50,11 +59,99 @@ func c02(c *Ctx) {
 }
 
 func c12(c *Ctx) {
-	c.R.Explanation = "C12: only the composition is decided. R-args/O1 (value provenance) = the value written on the regulation path is pwmMap[k] with k = util.FindClosest(request, keys): first argument the request, second the key list, the chosen key (not the request) is the map index, nothing else is written. O4 (typestate) = keys is recomputed as sort(ExtractKeysWithDistinctValues(pwmMap)) after every store to the map before the next use. R-extract = the key list stored is exactly the result of util.ExtractKeysWithDistinctValues applied to the map field and sorted (checked inside O4's clean event). Not decided, by design: that FindClosest returns the nearest key, that the extraction picks the first key of each run, and the search's index arithmetic (functional correctness of a binary search over all arrays needs proof or exhaustive enumeration, other technique families)."
+	c.R.Explanation = "C12: only the composition is decided. R-args/O1 (value provenance) = the value written on the regulation path is pwmMap[k] with k = util.FindClosest(request, keys): first argument the request, second the key list, the chosen key (not the request) is the map index, nothing else is written. O4 (typestate) = keys is recomputed as sort(ExtractKeysWithDistinctValues(pwmMap)) after every store to the map before the next use. R-keys = every element util.ExtractKeysWithDistinctValues puts into its result is a key of the map it was given (an element of SortedKeys(input) or a key of a range over the map), never a number produced otherwise: a supported input is a real key. R-extract = the key list stored is exactly the result of util.ExtractKeysWithDistinctValues applied to the map field and sorted (checked inside O4's clean event). Not decided, by design: that FindClosest returns the nearest key, that the extraction picks the first key of each run, and the search's index arithmetic (functional correctness of a binary search over all arrays needs proof or exhaustive enumeration, other technique families)."
 	r := c.analyseRegulation()
 	r.ruleFlow("R-args")
 	r.ruleFreshness("O4-fresh")
 	c.R.Require("R-args", 2)
+	c.ruleSupportedKeys("R-keys")
 	c.R.Excluded("R-nearest", "util.FindClosest", "internal/util.FindClosest", "-", "nearest-ness of the returned key is functional correctness of a binary search: not decided by static analysis here")
 	c.R.Excluded("R-firstofrun", "util.ExtractKeysWithDistinctValues", "internal/util.ExtractKeysWithDistinctValues", "-", "that the first key of each run of equal outputs is chosen is functional: not decided")
+}
+
+// ruleSupportedKeys (C12 R-keys): the extraction only ever reports keys of its input map.
+func (c *Ctx) ruleSupportedKeys(rule string) {
+	fn := c.FuncOpt(PkgUtil, "ExtractKeysWithDistinctValues")
+	if fn == nil || len(fn.Params) == 0 {
+		c.R.Undecided(rule, "extract", PkgUtil, "-", "util.ExtractKeysWithDistinctValues not found (anchor unresolved)")
+		return
+	}
+	fk := c.FK(fn)
+	tb := ir.NewTB(c.P.IsRepoFunc, c.P.FuncKey)
+	tb.InlineMaxBlocks = 0
+	inTree := map[*ssa.Function]bool{}
+	var grow func(f *ssa.Function)
+	grow = func(f *ssa.Function) {
+		if inTree[f] {
+			return
+		}
+		inTree[f] = true
+		for _, a := range f.AnonFuncs {
+			grow(a)
+		}
+	}
+	grow(fn)
+	tb.ParamCallers = c.CallersIn(inTree)
+	tb.ParamCallersMulti = true
+	input := tb.Of(fn.Params[0], nil).String()
+	isKey := func(t *ir.Term) bool {
+		s := t.String()
+		switch {
+		case t.Op == "index" && len(t.Args) == 2 && strings.Contains(t.Args[0].String(), "SortedKeys("+input):
+			return true
+		case strings.HasPrefix(t.Op, "res") && len(t.Args) == 1 && t.Args[0].Op == "next" && strings.Contains(s, "range("+input):
+			return true
+		}
+		return false
+	}
+	var alts func(t *ir.Term, depth int) []*ir.Term
+	alts = func(t *ir.Term, depth int) []*ir.Term {
+		if t.Op == "phi" && depth < 4 {
+			var out []*ir.Term
+			for _, a := range t.Args {
+				out = append(out, alts(a, depth+1)...)
+			}
+			return out
+		}
+		return []*ir.Term{t}
+	}
+	n := 0
+	bad := ""
+	for f := range inTree {
+		Calls(f, func(cc ssa.CallInstruction) {
+			call, ok := cc.(*ssa.Call)
+			if !ok || ir.Callee(call).Builtin != "append" || len(call.Call.Args) != 2 {
+				return
+			}
+			if !isIntSlice(call.Type()) {
+				return
+			}
+			va := ir.VarArgs(call.Call.Args[1])
+			if va == nil {
+				bad = "a whole slice is appended at " + c.P.Pos(call.Pos())
+				return
+			}
+			for _, e := range va {
+				n++
+				for _, a := range alts(tb.Of(e, nil), 0) {
+					if !isKey(a) {
+						bad = sprintf("%s is reported as a supported input at %s although it is not taken from the map's keys", a.String(), c.P.Pos(call.Pos()))
+					}
+				}
+			}
+		})
+	}
+	switch {
+	case n == 0:
+		c.R.Undecided(rule, fk, fk, c.P.Pos(fn.Pos()), "no append of a key found (anchor unresolved)")
+	case bad != "":
+		c.R.Bad(rule, fk, fk, c.P.Pos(fn.Pos()), bad)
+	default:
+		c.R.Ok(rule, fk, fk, c.P.Pos(fn.Pos()), "every reported supported input is an element of the map's (sorted) key set")
+	}
+}
+
+func isIntSlice(t types.Type) bool {
+	sl, ok := t.Underlying().(*types.Slice)
+	return ok && isIntType(sl.Elem())
 }
